@@ -8,6 +8,7 @@ import Driver.OpsEditor
 import Driver.OpsExport
 import Driver.OpsGen
 import Driver.OpsGenXml
+import Driver.OpsGenSrc
 import Driver.OpsFile
 import Driver.OpsCapi
 import Driver.OpsHevc
@@ -24,6 +25,7 @@ def step (line : String) : String :=
     else if op.startsWith "hevc." || op.startsWith "sei." then HevcOps.run parts
     else if op.startsWith "file." then FileOps.run parts
     else if op == "gen" then GenOps.run parts
+    else if op == "c10.gensrc" then GenSrcOps.run parts
     else if op == "genxml" || op == "xmlenc" then GenXmlOps.run parts
     else if op == "export" then ExportOps.run parts
     else if op == "editor" then EditorOps.run parts
